@@ -54,7 +54,7 @@ func ZzC17() {
 		}()
 	}
 	deleted := false
-	delWhole := withDeleter && zz.Bool("deleter.whole")
+	delWhole := withDeleter && zz.Param("DELWHOLE", 1) == 1 && zz.Bool("deleter.whole")
 	if withDeleter {
 		go func() {
 			zz.Gate("deleter:start")
